@@ -222,6 +222,10 @@ fn seqno_check(ex: &mut Exec) -> R<()> {
             highest = Some(highest.map_or(s, |x: u64| x.max(s)));
         }
     }
+    if let Some(j) = ex.journal_seqno_before_reopen {
+        highest = Some(highest.map_or(j, |x: u64| x.max(j)));
+        ex.stats.inc("seqno_checks_with_journal");
+    }
     let next = ex.db().seqno();
     let visible = ex.db().visible_seqno();
     let snap = ex.db().snapshot().seqno();
@@ -229,7 +233,7 @@ fn seqno_check(ex: &mut Exec) -> R<()> {
         if next <= hi {
             return Err(Deviation::new(
                 "seqno:next-not-above-recovered",
-                format!("after reopen the next seqno {next} is not above the highest recovered seqno {hi}"),
+                format!("after reopen the next seqno {next} is not above the highest seqno {hi} present in the journals / tables"),
             ));
         }
         if visible <= hi || snap <= hi {
@@ -427,6 +431,7 @@ pub fn main(args: &Args) -> i32 {
     let thorough = args.str("tier", "quick") == "thorough";
     let budget_s = args.u64("budget-s", 0);
     hooks::install();
+    crate::watchdog::start(args.u64("case-timeout-s", 120));
     let t0 = std::time::Instant::now();
     let mut total = Counts::default();
     let mut samples = 0;
@@ -437,10 +442,13 @@ pub fn main(args: &Args) -> i32 {
             break;
         }
         let plan = plan(&property, seed, idx, thorough);
+        crate::watchdog::begin_case(idx);
         let out = run_case(&plan, seed, idx, None);
+        crate::watchdog::end_case();
         total.merge(&out.stats);
         total.inc("cases");
         total.add("ops", out.ops.len() as u64);
+        crate::watchdog::set_partial("model", &property, &total);
         let flushes = out.stats.get("point.worker.flush.after_run");
         let nontrivial = flushes > 0
             && out.stats.get("ks_with_tables_below_l0") > 0
@@ -550,4 +558,78 @@ pub fn replay_main(args: &Args) -> i32 {
             1
         }
     }
+}
+
+
+/// Delta-debugging shrinker: removes operations while the same deviation signature reproduces.
+pub fn shrink_main(args: &Args) -> i32 {
+    let Some(path) = args.pos.first() else {
+        eprintln!("usage: fjv shrink <file>");
+        return 2;
+    };
+    let Ok(text) = std::fs::read_to_string(path) else {
+        return 2;
+    };
+    let mut property = "C01".to_string();
+    let mut seed = 1;
+    let mut idx = 0;
+    for l in text.lines() {
+        if let Some(h) = l.strip_prefix("# engine=model ") {
+            for kv in h.split_whitespace() {
+                if let Some((k, v)) = kv.split_once('=') {
+                    match k {
+                        "property" => property = v.to_string(),
+                        "seed" => seed = v.parse().unwrap_or(1),
+                        "case" => idx = v.parse().unwrap_or(0),
+                        _ => {}
+                    }
+                }
+            }
+        }
+    }
+    let Some(mut ops) = program_from_text(&text) else {
+        return 2;
+    };
+    hooks::install();
+    let plan = plan(&property, seed, idx, false);
+    let base = run_case(&plan, seed, idx, Some(ops.clone()));
+    let Some(d0) = base.dev else {
+        println!("no deviation to shrink");
+        return 0;
+    };
+    let sig = d0.sig.clone();
+    let t0 = std::time::Instant::now();
+    let mut chunk = ops.len() / 2;
+    while chunk >= 1 && t0.elapsed().as_secs() < args.u64("budget-s", 60) {
+        let mut i = 0;
+        let mut progressed = false;
+        while i < ops.len() {
+            let end = (i + chunk).min(ops.len());
+            // never remove keyspace creation
+            if ops[i..end].iter().any(|o| matches!(o, Op::CreateKs { .. })) && chunk > 1 {
+                i += chunk;
+                continue;
+            }
+            let mut cand = ops.clone();
+            cand.drain(i..end);
+            let out = run_case(&plan, seed, idx, Some(cand.clone()));
+            if out.dev.as_ref().is_some_and(|d| d.sig == sig) {
+                ops = out.ops; // truncated at the failing step
+                progressed = true;
+            } else {
+                i += chunk;
+            }
+        }
+        if !progressed || chunk == 1 {
+            if chunk == 1 && !progressed {
+                break;
+            }
+            chunk = (chunk / 2).max(1);
+        }
+    }
+    let out = run_case(&plan, seed, idx, Some(ops.clone()));
+    println!("# shrunk to {} ops; deviation: {:?}", ops.len(), out.dev.map(|d| format!("{} :: {}", d.sig, d.detail)));
+    println!("# engine=model property={property} seed={seed} case={idx}");
+    print!("{}", program_to_text(&ops));
+    0
 }
